@@ -217,6 +217,8 @@ pub struct FailPlan {
     /// ... and every later one too.
     pub persistent: bool,
     pub errno: i32,
+    /// If set, only operations on files of this class (see [`file_class`]) are counted and failed.
+    pub class: Option<&'static str>,
 }
 
 #[derive(Default)]
@@ -229,6 +231,8 @@ struct RecInner {
     fired: Vec<(usize, String, &'static str)>,
     yield_seed: u64,
     yield_on: bool,
+    /// (site, microseconds): a deterministic delay at one yield site (independent of `yield_on`)
+    site_delay: Option<(u32, u64)>,
 }
 
 /// The process-global hook implementation.
@@ -277,6 +281,10 @@ impl Recorder {
     }
     pub fn fired(&self) -> Vec<(usize, String, &'static str)> {
         self.lock().fired.clone()
+    }
+    /// Delay every passage through yield site `site` by `micros` (None = off).
+    pub fn set_site_delay(&self, d: Option<(u32, u64)>) {
+        self.lock().site_delay = d;
     }
     pub fn set_yield(&self, on: bool, seed: u64) {
         let mut g = self.lock();
@@ -348,10 +356,13 @@ impl Hook for Recorder {
         } else {
             return Ok(PASS);
         };
+        let counted = g.fail.as_ref().map_or(true, |fp| fp.class.map_or(true, |c| c == file_class(&file)));
         let idx = g.ops_seen;
-        g.ops_seen += 1;
+        if counted {
+            g.ops_seen += 1;
+        }
         if let Some(fp) = &g.fail {
-            if idx == fp.k || (fp.persistent && idx > fp.k) {
+            if counted && (idx == fp.k || (fp.persistent && idx > fp.k)) {
                 let errno = fp.errno;
                 let kn = kind.name();
                 g.fired.push((idx, file.clone(), kn));
@@ -375,6 +386,13 @@ impl Hook for Recorder {
     fn yield_point(&self, site: u32) {
         let (on, x) = {
             let mut g = self.lock();
+            if let Some((s, us)) = g.site_delay {
+                if s == site {
+                    drop(g);
+                    std::thread::sleep(std::time::Duration::from_micros(us));
+                    return;
+                }
+            }
             if !g.yield_on {
                 return;
             }
